@@ -2781,7 +2781,8 @@ func (ts *TokenStore) handleUpdateRevokeAccessor(ctx context.Context, req *logic
 		return resp, nil
 	}
 
-	te, err := ts.Lookup(ctx, aEntry.TokenID)
+	// See revokeCommon for why this is a tainted lookup.
+	te, err := ts.lookupTainted(ctx, aEntry.TokenID)
 	if err != nil {
 		return nil, err
 	}
@@ -3215,7 +3216,11 @@ func (ts *TokenStore) handleRevokeTree(ctx context.Context, req *logical.Request
 }
 
 func (ts *TokenStore) revokeCommon(ctx context.Context, req *logical.Request, data *framework.FieldData, id string) (*logical.Response, error) {
-	te, err := ts.Lookup(ctx, id)
+	// Use a tainted lookup: a token whose earlier revocation was interrupted
+	// (e.g. by a storage error) is already marked as pending revocation and
+	// a plain lookup would hide it, so retrying the revocation would report
+	// success without finishing the teardown.
+	te, err := ts.lookupTainted(ctx, id)
 	if err != nil {
 		return nil, err
 	}
